@@ -2,6 +2,7 @@
   TwProofs.C05 — text outside Textwire syntax is emitted byte for byte.
 -/
 import TwProofs.Lemmas.PlainText
+import TwProofs.Lemmas.TextPieces
 
 namespace Tw.C05
 open Tw
@@ -24,6 +25,33 @@ theorem plain_text_identity (custom : List ((VType × Bytes) × Nat)) (s : Bytes
 /-- a text statement evaluates to its token's literal -/
 theorem html_stmt_verbatim (fuel : Nat) (c : Ctx) (env : Env) (t : Token) :
     evalStmt (fuel + 1) c env (.html t) = .ok ({ text := t.lit }, env) := rfl
+
+/-- **a comment renders nothing**: text `a`, a comment with *any* body that does not contain the
+    terminator (code, directives, braces, newlines, dashes), text `b` render as `a ++ b`.
+    `PlainBefore a tl`: no "{{" and no directive keyword starts inside `a` when `tl` follows;
+    `lastOr a 0 ≠ 92`: `a` does not end in a backslash (that would escape the "{{") -/
+theorem comment_is_silent (custom : List ((VType × Bytes) × Nat)) (a cm b : Bytes) (ha : a ≠ []) (hb : b ≠ [])
+    (hpa : PlainBefore a ([123, 123, 45, 45] ++ cm ++ [45, 45, 125, 125] ++ b)) (hesc : lastOr a 0 ≠ 92) (hpb : Plain b)
+    (hcm : commentScan (cm ++ [45, 45, 125, 125] ++ b) = cm.length)
+    (data : List (Bytes × GoVal)) (env : Env) (henv : envFromMap data = .ok env) :
+    evaluateStringPure custom (a ++ ([123, 123, 45, 45] ++ cm ++ [45, 45, 125, 125] ++ b)) data = .ok (a ++ b) :=
+  comment_renders_nothing custom a cm b ha hb hpa hesc hpb hcm data env henv
+
+/-- **an escaped "{{" is text**: `a \{{ b` renders as `a {{ b` — the backslash disappears and
+    nothing between the braces is evaluated (`Plain (123 :: b)`: `b` is plain and does not start
+    with a third brace) -/
+theorem escaped_braces_are_text (custom : List ((VType × Bytes) × Nat)) (a b : Bytes)
+    (hpa : PlainBefore (a ++ [92]) (123 :: 123 :: b)) (hpb : Plain (123 :: b))
+    (data : List (Bytes × GoVal)) (env : Env) (henv : envFromMap data = .ok env) :
+    evaluateStringPure custom ((a ++ [92]) ++ 123 :: 123 :: b) data = .ok (a ++ 123 :: 123 :: b) :=
+  escaped_braces_render custom a b hpa hpb data env henv
+
+/-- **an escaped directive is text**: `a \@if(x) …` renders as `a @if(x) …` -/
+theorem escaped_directive_is_text (custom : List ((VType × Bytes) × Nat)) (a b : Bytes)
+    (hpa : PlainBefore (a ++ [92]) (64 :: b)) (hd : hasDirectivePrefix (64 :: b) = true) (hpb : Plain b)
+    (data : List (Bytes × GoVal)) (env : Env) (henv : envFromMap data = .ok env) :
+    evaluateStringPure custom ((a ++ [92]) ++ 64 :: b) data = .ok (a ++ 64 :: b) :=
+  escaped_directive_render custom a b hpa hd hpb data env henv
 
 /-! non-vacuity -/
 
